@@ -314,6 +314,18 @@ pub fn mutate(root: &mut Tlv, kind: &str, n: usize, v: usize) -> bool {
             }
             t.body = Body::Prim(c);
         }
+        // a bit string grown to 17 / 20 / 32 octets of bits (more than the 128 an address can have; fine for keys and signatures)
+        "bits-long" => {
+            if t.utag() != Some(3) { return false }
+            let c = t.content();
+            if c.is_empty() || c.len() > 17 { return false }
+            let mut n = vec![c[0] & 7];
+            n.extend_from_slice(&c[1..]);
+            n.resize(1 + [17usize, 20, 32][v % 3], 0x80);
+            let l = n.len() - 1;
+            n[l] &= 0xffu8 << (n[0] & 7);
+            t.body = Body::Prim(n);
+        }
         "bool-odd" => { if t.utag() != Some(1) { return false } t.body = Body::Prim(vec![[0x01u8, 0x00, 0x7f][v % 3]]); }
         "oid-cont" => { if t.utag() != Some(6) { return false } let mut c = t.content(); match v % 3 { 0 => { if let Some(l) = c.last_mut() { *l |= 0x80 } } 1 => c.insert(0, 0x80), _ => c = vec![0xff; 12] } t.body = Body::Prim(c); }
         "time-chars" => {
@@ -342,7 +354,7 @@ pub fn mutate(root: &mut Tlv, kind: &str, n: usize, v: usize) -> bool {
 }
 
 /// kinds that only make sense on nodes of particular types
-pub const TYPED_KINDS: &[&str] = &["int-huge", "int-max", "segment-string", "bits-unused", "bool-odd", "oid-cont", "time-chars", "string-bytes"];
+pub const TYPED_KINDS: &[&str] = &["int-huge", "int-max", "bits-long", "segment-string", "bits-unused", "bool-odd", "oid-cont", "time-chars", "string-bytes"];
 
 /// preorder indices of the nodes a typed kind applies to
 pub fn eligible(root: &Tlv, kind: &str) -> Vec<usize> {
@@ -354,6 +366,7 @@ pub fn eligible(root: &Tlv, kind: &str) -> Vec<usize> {
             "int-huge" | "int-max" => t.utag() == Some(2),
             "segment-string" => matches!(t.utag(), Some(3 | 4)) || (!t.is_constructed() && t.id[0] & 0xc0 == 0x80),
             "bits-unused" => t.utag() == Some(3),
+            "bits-long" => t.utag() == Some(3) && matches!(&t.body, Body::Prim(c) if !c.is_empty() && c.len() <= 17),
             "bool-odd" => t.utag() == Some(1),
             "oid-cont" => t.utag() == Some(6),
             "time-chars" => matches!(t.utag(), Some(23 | 24)),
@@ -363,18 +376,27 @@ pub fn eligible(root: &Tlv, kind: &str) -> Vec<usize> {
     }).collect()
 }
 
-/// Representative nodes for the kinds that apply anywhere: for every distinct identifier octet the first and the last node
-/// carrying it, plus the root's children. Whatever the tree, every *kind of field* (integer, OID, time, bit string, each context
+/// Representative nodes for the kinds that apply anywhere: for every distinct (identifier octet, nesting depth) the first and the
+/// last node carrying it (the same tag plays different roles at different depths: a key's bit string, an address prefix ...). Whatever the tree, every *kind of field* (integer, OID, time, bit string, each context
 /// tag ...) is hit at least once.
 pub fn representatives(root: &Tlv) -> Vec<usize> {
-    let total = root.count();
-    let mut r = root.clone();
-    let mut first: Vec<(Vec<u8>, usize)> = vec![];
-    let mut last: Vec<(Vec<u8>, usize)> = vec![];
-    for n in 0..total {
-        let id = r.node_mut(n).unwrap().id.clone();
-        if !first.iter().any(|(i, _)| *i == id) { first.push((id.clone(), n)); }
-        match last.iter_mut().find(|(i, _)| *i == id) { Some(e) => e.1 = n, None => last.push((id, n)) }
+    // preorder walk with depth
+    fn walk(t: &Tlv, depth: usize, next: &mut usize, out: &mut Vec<(Vec<u8>, usize, usize)>) {
+        out.push((t.id.clone(), depth, *next));
+        *next += 1;
+        if let Body::Cons(c) | Body::Encap(_, c) = &t.body {
+            for x in c { walk(x, depth + 1, next, out); }
+        }
+    }
+    let mut nodes = vec![];
+    let mut next = 0;
+    walk(root, 0, &mut next, &mut nodes);
+    let mut first: Vec<((Vec<u8>, usize), usize)> = vec![];
+    let mut last: Vec<((Vec<u8>, usize), usize)> = vec![];
+    for (id, depth, n) in nodes {
+        let key = (id, depth);
+        if !first.iter().any(|(k, _)| *k == key) { first.push((key.clone(), n)); }
+        match last.iter_mut().find(|(k, _)| *k == key) { Some(e) => e.1 = n, None => last.push((key, n)) }
     }
     let mut out: Vec<usize> = first.iter().map(|x| x.1).chain(last.iter().map(|x| x.1)).collect();
     out.push(0);
@@ -386,6 +408,6 @@ pub fn representatives(root: &Tlv) -> Vec<usize> {
 pub const KINDS: &[&str] = &[
     "delete", "duplicate", "swap-next", "move-first", "splice-other", "tag-class", "tag-number", "tag-constructed", "tag-high",
     "len-nonminimal", "len-indefinite", "len-plus", "len-minus", "len-huge", "len-zero", "empty", "value-zero", "value-ff", "value-flip",
-    "value-trunc", "value-extend", "value-highbit", "value-leadzero", "int-huge", "int-max", "segment-string", "bits-unused", "bool-odd", "oid-cont",
+    "value-trunc", "value-extend", "value-highbit", "value-leadzero", "int-huge", "int-max", "segment-string", "bits-unused", "bits-long", "bool-odd", "oid-cont",
     "time-chars", "string-bytes", "nest-deep",
 ];
